@@ -322,15 +322,18 @@ def _gate(r, p):
 def _counts(r, rep):
     K = rep.key
     tv = [n for n in walk_function(rep.node) if isinstance(n, ast.Assign) and norm(n.targets[0]) == "dRunInfo['total_violations']"]
+    # the printed list / the counter dictionary may be built in a local that is stored into dRunInfo as it is
+    list_names = {"dRunInfo['violations']"} | {n.value.id for n in walk_function(rep.node) if isinstance(n, ast.Assign) and norm(n.targets[0]) == "dRunInfo['violations']" and isinstance(n.value, ast.Name)}
+    sev_names = {"dRunInfo['severities']"} | {n.value.id for n in walk_function(rep.node) if isinstance(n, ast.Assign) and norm(n.targets[0]) == "dRunInfo['severities']" and isinstance(n.value, ast.Name)}
     if len(tv) != 1:
         r.fail("C14.counts", K + ":total", "total_violations assigned %d times" % len(tv), rep.loc())
-    elif norm(tv[0].value) != "len(dRunInfo['violations'])":
+    elif norm(tv[0].value) not in {"len(%s)" % x for x in list_names}:
         r.fail("C14.counts", K + ":total", "total_violations = %s is not the length of the printed list" % norm(tv[0].value), rep.loc(tv[0]))
     else:
         facts = Facts(rep.node)
         # the list must not be extended after the count: no call dRunInfo['violations'].extend/append dominated by... check syntactically by line order in straight-line code
-        later = [n for n in walk_function(rep.node) if isinstance(n, ast.Call) and norm(n.func).startswith("dRunInfo['violations'].") and n.lineno > tv[0].lineno]
-        later += [n for n in walk_function(rep.node) if isinstance(n, ast.Assign) and norm(n.targets[0]) == "dRunInfo['violations']" and n.lineno > tv[0].lineno]
+        later = [n for n in walk_function(rep.node) if isinstance(n, ast.Call) and isinstance(n.func, ast.Attribute) and norm(n.func.value) in list_names and n.lineno > tv[0].lineno]
+        later += [n for n in walk_function(rep.node) if isinstance(n, ast.Assign) and norm(n.targets[0]) in list_names and n.lineno > tv[0].lineno and not (isinstance(n.value, ast.Name) and n.value.id in list_names)]
         if later:
             r.fail("C14.counts", K + ":total-stale", "the violation list changes after it was counted", rep.loc(later[0]))
         else:
@@ -345,9 +348,12 @@ def _counts(r, rep):
             if h is not None and len(rets) == 1 and isinstance(rets[0].value, ast.Name) and len(h.params) == 2:
                 cfi, D, domain = h, rets[0].value.id, h.params[1]
     incs = []
+    Dset = sev_names if cfi is rep else {D}
+    domset = list_names if cfi is rep else {domain}
     for n in walk_function(cfi.node):
-        if isinstance(n, ast.Assign) and isinstance(n.targets[0], ast.Subscript) and norm(n.targets[0].value) == D:
+        if isinstance(n, ast.Assign) and isinstance(n.targets[0], ast.Subscript) and norm(n.targets[0].value) in Dset:
             incs.append(n)
+            D = norm(n.targets[0].value)
     inc = [n for n in incs if not (isinstance(n.value, ast.Constant) and n.value.value == 0)]
     zero = [n for n in incs if isinstance(n.value, ast.Constant) and n.value.value == 0]
     if not zero:
@@ -359,7 +365,7 @@ def _counts(r, rep):
     loop = [x for x in _parents(n, cfi.node) if isinstance(x, ast.For)]
     keyt = norm(n.targets[0].slice)
     want_val = "%s[%s] + 1" % (D, keyt)
-    ok = loop and norm(loop[0].iter) == domain and norm(n.value) in (want_val, "1 + %s[%s]" % (D, keyt))
+    ok = loop and norm(loop[0].iter) in domset and norm(n.value) in (want_val, "1 + %s[%s]" % (D, keyt))
     guards = [x for x in _parents(n, cfi.node) if isinstance(x, ast.If)]
     if not ok or guards:
         r.fail("C14.counts", K + ":severity-inc", "severity counter `%s = %s` is not +1 per entry of the printed list" % (norm(n.targets[0]), norm(n.value)), cfi.loc(n))
@@ -377,7 +383,10 @@ def _counts(r, rep):
 
 
 def _exit(r, p, cg):
-    ar = p.function("vsg.apply_rules:apply_rules")
+    from ..model import inline_helpers
+
+    # result tuples may be built by a helper of the module (`return build_result(...)`): decide on the inlined view
+    ar = inline_helpers(p, p.function("vsg.apply_rules:apply_rules"), toward={"write_vhdl_file", "create_backup_file"})
     facts = Facts(ar.node)
     rets = [n for n in walk_function(ar.node) if isinstance(n, ast.Return)]
     if len(rets) < 3:
